@@ -137,7 +137,7 @@ class CleanRule(sym.Rule):
                         o = r[1][2]
                         for ad, k in eng.field_tag.items():
                             if k == 2 and ad[2] == o:
-                                size_now = st.mem.get(ad, atom(('init', ad)))
+                                size_now = eng.load(st, ad)
                 destroyed = destroyed | {(a, b, size_now)}
                 return (thrown, cleaned, destroyed)
         if ev.kind == 'call' and kind == 'DEALLOC' and len(ev.args) >= 3:
